@@ -427,3 +427,28 @@ def numerical_failure(exc):
     if isinstance(exc, AssertionError) and inner.co_name in ("hessian", "hessian_inv"):
         return True
     return third_party and isinstance(exc, (IndexError, RuntimeError, FloatingPointError, ZeroDivisionError, OverflowError, ValueError, AssertionError))
+
+
+class InjectedFault(ArithmeticError):
+    """raised by FaultyHandle: stands for a model / cost function that raises during an excursion"""
+
+
+class FaultyHandle:
+    """wraps the cost function handle of a minimiser (`minimizer._func_handle`); raises InjectedFault once, at its k-th counted call.
+    With p0 given, calls at exactly p0 (the optimum: write-backs that end an excursion) are passed through uncounted."""
+
+    def __init__(self, f, k, p0=None):
+        import numpy as np
+
+        self.f, self.k, self.n = f, k, 0
+        self.p0 = None if p0 is None else np.array(p0, dtype=float)
+
+    def __call__(self, *a):
+        import numpy as np
+
+        if self.p0 is not None and len(a) == len(self.p0) and np.array_equal(np.array(a, dtype=float), self.p0):
+            return self.f(*a)
+        self.n += 1
+        if self.n == self.k:
+            raise InjectedFault("injected at cost evaluation %d" % self.k)
+        return self.f(*a)
